@@ -97,8 +97,236 @@ def wantSeq (hdr : Bool) (id : Bytes) (mol : Nat) (letters : Bytes) : String :=
 def wantCoords (f : Gff.Feature) : Bytes × Bytes :=
   (formatInt (if f.start ≥ 0 then f.start + 1 else f.start), formatInt f.stop)
 
+/-! ### files of several records (ops `bedf`, `gfff`)
+One writer, one reader; the harness keeps every record the reader returned and looks at them only
+after `io.EOF`.  The model of a file is the per-record model mapped over the records: the text is
+the concatenation of the per-record texts, and the reader model is run on the whole text. -/
+
+def chunksOf (k : Nat) : Nat → List String → List (List String)
+  | 0, _ => []
+  | _, [] => []
+  | fuel + 1, ts => ts.take k :: chunksOf k fuel (ts.drop k)
+
+/-- split the record tokens of a file op into records of `k` tokens each -/
+def recordTokens (k : Nat) (ts : List String) : Option (List (List String)) :=
+  if k == 0 || ts.length % k != 0 then none else some (chunksOf k ts.length ts)
+
+/-- every record read back as its first `r` columns, in order, then `io.EOF`; for one record it is
+    `wantBed r b` -/
+def wantBedFile (r : Nat) (bs : List Bed.Rec) : String :=
+  " ".intercalate (bs.map (fun b => "r:" ++ bedRec (Bed.firstCols r b)) ++ ["eof"])
+
+/-- every feature read back equal to the original, in order, then `io.EOF` and the reader's
+    metadata; for one feature it is `wantGff hdr f` -/
+def wantGffFile (hdr : Bool) (fs : List Gff.Feature) : String :=
+  " ".intercalate (fs.map (fun f => "r:" ++ gffFeature f) ++ ["eof", metaStr hdr])
+
+def bedWriteAll (w : Nat) : List Bed.Rec → Except Bed.Err (List Bytes × List Nat)
+  | [] => .ok ([], [])
+  | b :: bs => do
+    let (t, n) ← Bed.write w b
+    let (ts, ns) ← bedWriteAll w bs
+    pure (t :: ts, n :: ns)
+
+def gffWriteAll (o : Gff.Oracles) : List Gff.Feature → Except Gff.WErr (List Bytes × List Nat)
+  | [] => .ok ([], [])
+  | f :: fs => do
+    let (t, n) ← Gff.writeFeature o f
+    let (ts, ns) ← gffWriteAll o fs
+    pure (t :: ts, n :: ns)
+
+/-- first section of a file observation: `<n,…> <emitted,…> <hex text> [<ff:…,ff:…>]` -/
+structure WrittenFile where
+  ns : List Nat
+  emitted : List Nat
+  text : Bytes
+  ffs : List (Option Bytes)
+
+def parseFf (f : String) : Option Bytes :=
+  if f.startsWith "ff:" && f != "ff:-" then bytesOfHex (f.drop 3).toString else none
+
+def parseWrittenFile (s : String) : Option WrittenFile :=
+  match tokens s with
+  | n :: e :: t :: rest => do
+    let ffs := match rest with
+      | [f] => if f == "-" then [] else (f.splitOn ",").map parseFf
+      | _ => []
+    some { ns := ← parseNats n, emitted := ← parseNats e, text := ← bytesOfHex t, ffs }
+  | _ => none
+
+/-- columns 4 and 5 of one line of text -/
+def coordColumnsOfLine (l : Bytes) : Option (Bytes × Bytes) :=
+  let f := splitOn 9 (trimSpace l)
+  match f[3]?, f[4]? with
+  | some a, some b => some (a, b)
+  | _, _ => none
+
+/-- the last `fs.length` lines of the text carry the 1-based inclusive coordinates of `fs` -/
+def coordsOK (text : Bytes) (fs : List Gff.Feature) : Bool :=
+  let ls := lines text
+  ls.length ≥ fs.length &&
+  ((ls.drop (ls.length - fs.length)).zip fs).all fun (l, f) =>
+    match coordColumnsOfLine l with
+    | some (a, b) => a == (wantCoords f).1 && b == (wantCoords f).2
+    | none => false
+
+def handleBedFile (n w r : Nat) (fulls : List Bed.Rec) (obs : String) : Verdict :=
+  let bs := fulls.map (Bed.firstCols n)
+  let wf := bs.all (bedWF n) && w ≤ n && r ≤ w
+  let counts := bs.map (·.blockSizes.length)
+  let decreasing := n == 12 && r == 12 && (counts.zip (counts.drop 1)).any fun (a, b) => b < a
+  let tags := ["bed-file", s!"bed{n}", s!"write{w}", s!"read{r}", s!"recs{min bs.length 3}"]
+    ++ (if wf then (if bs.length ≥ 2 then ["nt", "wf"] else ["wf"]) else ["not-wf"])
+    ++ (if decreasing then ["block-count-decreases"] else [])
+  match bedWriteAll w bs with
+  | .error _ =>
+    let m := "werr:type 0 -"
+    if bs.isEmpty then bad "bedf" else if m == obs then ok tags else diff m tags
+  | .ok (texts, cnts) =>
+    let text := texts.flatten
+    let m := s!"{showNats cnts} {showNats (texts.map (·.length))} {hx text} | {bedCalls (Bed.readAll r text)}"
+    if wf then
+      match sections obs with
+      | [wr, calls] =>
+        match parseWrittenFile wr with
+        | some x =>
+          if x.ns != x.emitted then fail s!"reported-counts {showNats x.ns} != bytes-emitted {showNats x.emitted}" tags
+          else if x.emitted.foldl (· + ·) 0 != x.text.length then fail "bytes-emitted-inconsistent" tags
+          else
+            let want := wantBedFile r bs
+            if calls != want then fail s!"read-back-differs want={want}" tags
+            else if m == obs then ok tags else diff m tags
+        | none => fail "write-failed-on-well-formed-record" tags
+      | _ => fail "write-failed-on-well-formed-record" tags
+    else if m == obs then ok tags else diff m tags
+
+def handleGffFile (hdr : Bool) (fs : List Gff.Feature) (obs : String) : Verdict :=
+  match sections obs with
+  | [wr, calls, orc] =>
+    match parseWrittenFile wr with
+    | none =>
+      if fs.any (fun f => f.start ≥ f.stop) then
+        (if obs.startsWith "werr:badfeature" then ok ["gff-file", "refused"] else diff "werr:badfeature" ["gff-file"])
+      else fail "write-failed" ["gff-file"]
+    | some x =>
+      let ffps : List (Nat × Bytes) := (fs.zip x.ffs).filterMap fun (f, t) =>
+        match f.score, t with
+        | some bits, some txt => some (bits, txt)
+        | _, _ => none
+      let o0 := mkOracles (tokens orc)
+      let o : Gff.Oracles := { o0 with formatFloat := fun v => ((ffps.find? (·.1 == v)).map (·.2)).getD [] }
+      let wf := fs.all gffWF
+      let counts := fs.map (fun f => (f.attrs.getD []).length)
+      let tags := ["gff-file", if hdr then "header" else "no-header", s!"recs{min fs.length 3}"]
+        ++ (if wf then (if fs.length ≥ 2 then ["nt", "wf"] else ["wf"]) else ["not-wf"])
+        ++ (if (counts.zip (counts.drop 1)).any (fun (a, b) => b < a) then ["attr-count-decreases"] else [])
+      -- the assumed float law, sampled on every score of the file
+      let floatLaw := (fs.zip (x.ffs ++ List.replicate fs.length none)).all fun (f, t) =>
+        match f.score with
+        | some bits => Gff.isNaN bits || (match t with
+            | some txt => floatTokenOK txt && o.parseFloat txt == some bits
+            | none => false)
+        | none => true
+      if !floatLaw then fail "float-law: ParseFloat(Sprintf(%v, x)) != x or the text is not a clean token" tags else
+      match gffWriteAll o fs with
+      | .error _ => diff "werr:badfeature" tags
+      | .ok (texts, cnts) =>
+        let all := (if hdr then Gff.headerText else []) ++ texts.flatten
+        let ffs := if fs.isEmpty then "-" else
+          ",".intercalate ((x.ffs ++ List.replicate (fs.length - x.ffs.length) none).map fun
+            | some t => "ff:" ++ hx t | none => "ff:-")
+        let m := s!"{showNats cnts} {showNats (texts.map (·.length))} {hx all} {ffs} | {gffCalls (Gff.readAll o all)}"
+        if wf then
+          if x.ns != x.emitted then fail s!"reported-counts {showNats x.ns} != bytes-emitted {showNats x.emitted}" tags
+          else
+            let want := wantGffFile hdr fs
+            if calls != want then fail s!"read-back-differs want={want}" tags
+            else if !coordsOK x.text fs then fail "text-not-one-based-inclusive" tags
+            else if m == wr ++ " | " ++ calls then ok tags else diff m tags
+        else if m == wr ++ " | " ++ calls then ok tags else diff m tags
+  | _ =>
+    if fs.any (fun f => f.start ≥ f.stop) then
+      (if obs.startsWith "werr:badfeature" then ok ["gff-file", "refused"] else diff "werr:badfeature" ["gff-file"])
+    else fail "write-failed" ["gff-file"]
+
+/-! ### one record through a failing `io.Writer` (ops `bedx`, `gffx`)
+"reported byte counts equal bytes emitted" — also by a `Write` that fails part-way.  The harness
+writes the record, for every `k` up to the length of the fault-free text, to a writer that accepts
+exactly `k` bytes and then fails. -/
+
+/-- the failing sink seen from a writer that adds up what its underlying writes return and stops at
+    the first error: the record's text (`len` bytes, starting at offset `s` — the header) is emitted
+    completely when it fits, otherwise its first `k - s` bytes are, reported with an error -/
+def faultOne (k s len : Nat) : String :=
+  if s + len ≤ k then s!"{len}/{len}/0/1" else s!"{k - s}/{k - s}/1/1"
+
+def faultModel (pre text : Bytes) : String :=
+  let all := pre ++ text
+  " ".intercalate (["x", toString all.length, hx all]
+    ++ (List.range (all.length + 1)).map fun k => faultOne k pre.length text.length)
+
+/-- demanded at one failure point `<n>/<emitted>/<e>/<p>`: the count returned equals the bytes that
+    `Write` emitted, and everything emitted is the beginning of the fault-free text -/
+def faultDemand (k : Nat) (tok : String) : Option String :=
+  match tok.splitOn "/" with
+  | [n, d, _, p] =>
+    if n ≠ d then some s!"writer failing after {k} bytes: reported-count {n} != bytes-emitted {d}"
+    else if p ≠ "1" then some s!"writer failing after {k} bytes: the bytes emitted are not a prefix of the fault-free text"
+    else none
+  | _ => some "unparsable-observation"
+
+def faultDemands : Nat → List String → Option String
+  | _, [] => none
+  | k, t :: ts => match faultDemand k t with
+    | some why => some why
+    | none => faultDemands (k + 1) ts
+
+def faultVerdict (model obs : String) (tags : List String) : Verdict :=
+  match tokens obs with
+  | "x" :: _ :: _ :: toks =>
+    match faultDemands 0 toks with
+    | some why => fail why tags
+    | none => if model == obs then ok tags else diff (model.take 600).toString tags
+  | _ => if model == obs then ok tags else diff (model.take 600).toString tags
+
 def handleTokens (inp : List String) (obs : String) : Verdict :=
   match inp with
+  | "bedx" :: n :: w :: cols =>
+    match parseNat n, parseNat w, parseBedIn cols with
+    | some n, some w, some full =>
+      let b := Bed.firstCols n full
+      let tags := ["bed", "failing-writer", s!"bed{n}", s!"write{w}"] ++ (if w ≤ n then ["nt"] else [])
+      match Bed.write w b with
+      | .error _ => let m := "werr:type 0 -"; if m == obs then ok tags else diff m tags
+      | .ok (text, _) => faultVerdict (faultModel [] text) obs tags
+    | _, _, _ => bad "bedx"
+  | "gffx" :: hdr :: cols =>
+    match parseBool hdr, parseGffIn cols with
+    | some hdr, some f =>
+      let tags := ["gff", "failing-writer", if hdr then "header" else "no-header", "nt"]
+        ++ (match f.score with | none => ["score-nil"] | some _ => ["score-float"])
+        ++ (match f.attrs with | none => ["attrs-nil"] | some [] => ["attrs-empty"] | some _ => ["attrs"])
+      if f.start ≥ f.stop then (if obs.startsWith "werr:badfeature" then ok ["gff", "refused"] else diff "werr:badfeature" ["gff"])
+      else
+        -- the fault-free text is taken from the observation (its float text is the oracle's): the
+        -- model of the failing sink needs only the lengths
+        match tokens obs with
+        | "x" :: _ :: t :: _ =>
+          match bytesOfHex t with
+          | some all =>
+            let pre := if hdr then Gff.headerText else []
+            faultVerdict (faultModel pre (all.drop pre.length)) obs tags
+          | none => bad "gffx"
+        | _ => fail "write-failed" tags
+    | _, _ => bad "gffx"
+  | "bedf" :: n :: w :: r :: cols =>
+    match parseNat n, parseNat w, parseNat r, (recordTokens 12 cols).bind (·.mapM parseBedIn) with
+    | some n, some w, some r, some fulls => handleBedFile n w r fulls obs
+    | _, _, _, _ => bad "bedf"
+  | "gfff" :: hdr :: cols =>
+    match parseBool hdr, (recordTokens 10 cols).bind (·.mapM parseGffIn) with
+    | some hdr, some fs => handleGffFile hdr fs obs
+    | _, _ => bad "gfff"
   | "bed" :: n :: w :: r :: cols =>
     match parseNat n, parseNat w, parseNat r, parseBedIn cols with
     | some n, some w, some r, some full =>
@@ -237,7 +465,7 @@ def handleTokens (inp : List String) (obs : String) : Verdict :=
     | _, _ => bad "fl"
   | _ => bad "unknown-op"
 
-def ops : List String := ["bed", "gff", "reg", "iseq", "fl"]
+def ops : List String := ["bed", "gff", "reg", "iseq", "fl", "bedf", "gfff", "bedx", "gffx"]
 
 def handle (line : String) : String :=
   let (inp, obs) := splitCase line
